@@ -132,6 +132,20 @@ CHECKS["C04"] = dict(
     note=TRUST + "Not decided: that B is the Cholesky-like factor of the reciprocal metric, det U = +1, rotation/cell round "
          "trips, xfab's u_to_rod.")
 
+CHECKS["C10"] = dict(
+    category="other", design_ref="DESIGN.md section 3 / C10",
+    technique="polynomial value numbering of finite_strain.py / grain.py / tensor_map.py with uninterpreted SVD factors and "
+              "3x3 inverses: program duality (lab(F) == ref(F^T)), sibling agreement of the map kernels with the per-grain "
+              "route, packing-table inverses",
+    text="Static, for symbolic F / ubi / cell (all inputs): (R1) the e6 packing tables of both modules are identical and "
+         "mutually inverse on symmetric matrices; (R2) finite_strain_lab(F) equals finite_strain_ref(F^T) for every supported "
+         "m in {-1,..,2} (same branch, divisor, power), results are symmetric, and the m=1, 0.5, 0 forms are Green-"
+         "Lagrange, Biot and Hencky expressions of the SVD factors; (R3) polar factors R=w.vh, S=vh^T.d.vh, V=w.d.w^T, "
+         "F=ubi^T.ub0^T, and the vectorised tensor_map strain kernels equal grain.eps_sample_matrix/eps_grain_matrix "
+         "entry by entry for a generic triclinic reference cell; (R4) frame/role plumbing and the U.T.U^T rotations.",
+    note=TRUST + "SVD semantics (F = w.diag(s).vh, orthogonality) are NOT used, so objectivity, exactness for a known "
+         "stretch, vanishing at zero strain and first-order agreement across m are not decided.")
+
 NOT_YET = {}
 
 NOT_APPLICABLE = {
